@@ -10,7 +10,8 @@ class BindingError(Exception):
 
 
 class LoopSpec:
-    def __init__(self, invariants, havoc, decreases=None, unfolds=(), ghost_havoc=None, locals_ok=(), elem_wrap=None):
+    def __init__(self, invariants, havoc, decreases=None, unfolds=(), ghost_havoc=None, locals_ok=(), elem_wrap=None, match=None):
+        self.match = match        # source text of the loop's iterable / condition: binds the spec to that loop wherever it stands (None: by position)
         self.invariants = list(invariants); self.havoc = dict(havoc); self.decreases = decreases
         self.unfolds = list(unfolds); self.ghost_havoc = ghost_havoc or {}; self.locals_ok = set(locals_ok); self.elem_wrap = elem_wrap
         self.unroll = None
@@ -94,10 +95,10 @@ def verify(contract, callee_contracts=None, spec_functions=None, options=None):
     ex.current_fn = contract.qualname
     ex._loop_index = index_loops(fn)
     n_loops = len(ex._loop_index)
-    if contract.n_loops is not None and n_loops != contract.n_loops:
+    if contract.n_loops is not None and n_loops != contract.n_loops and not any(getattr(ls, "match", None) for ls in contract.loops.values()):
         raise BindingError("%s has %d loops, the contract was written for %d" % (contract.qualname, n_loops, contract.n_loops))
     for k in contract.loops:
-        if k >= n_loops:
+        if k >= n_loops and not getattr(contract.loops[k], "match", None):
             raise BindingError("%s: loop %d named by the contract does not exist" % (contract.qualname, k))
     for k, ls in contract.loops.items(): ex.loop_specs[(contract.qualname, k)] = ls
     st = State(); st.frames = [Frame(mod, cls, {})]
